@@ -12,7 +12,7 @@ PBT = "property-based testing (pgregory.net/rapid): "
 KERNEL = "Trusted: harness kernel (exact integer predicates with 128 bit products, grid model with the extent from tms20.MatrixBoundingBox, routing reference cross-validated against exact-rational witness enumeration), rapid. "
 
 c("C01", True, PBT + "valid-polygon generators by construction + exact proper-crossing oracle over all output edge pairs; shrunk failures become replay files",
-  "Generated search: 20 000 (quick) to 4 000 000 (thorough) valid polygons built to hit pixel ties and collapses (edge-split growth, stars, combs, zig-zags, polyomino outlines, holes) on synthetic dyadic grids, NetherlandsRDNewQuad and WebMercatorQuad, 1-4 ids, all flag combinations; every pair of output edges of a tile matrix is tested for a proper crossing with exact orientation predicates. Falsification only: silence means no crossing among the explored cases and sizes (<= 40 vertices per ring, <= 3 holes, <= 4 ids).",
+  "Generated search: 20 000 (quick) to 4 000 000 (thorough) valid polygons built to hit pixel ties and collapses (edge-split growth, stars, combs, zig-zags, polyomino outlines, holes) on synthetic dyadic grids, NetherlandsRDNewQuad and WebMercatorQuad, 1-4 ids, all flag combinations; every pair of output edges of a tile matrix is tested for a proper crossing with exact orientation predicates. Plus an exhaustive slice: all 85 320 triangles on the quarter pixel lattice of a 2x2 pixel window at two grid positions (quick: every 16th). Falsification only beyond that slice: silence means no crossing among the explored cases and sizes (<= 40 vertices per ring, <= 3 holes, <= 4 ids).",
   KERNEL + "Open known finding F5 (invented edge when the routed boundary passes a centre >= 3 times) is excluded by signature and reported as KNOWN-FINDING.",
   "DESIGN.md §5 C01")
 c("C02", True, PBT + "differential against an independent routing reference model (separating-axis test with symbolic shrink) + exhaustive enumeration of a quarter-pixel lattice slice",
@@ -24,11 +24,11 @@ c("C03", True, PBT + "generated polygons on every accepted built-in set and id; 
   "Trusted: document numbers, pointindex.DeviationStats as the reported deviation (per the property statement), float64 arithmetic with the stated tolerance (dev + 1e-9 + 4 ulp).",
   "DESIGN.md §5 C03")
 c("C04", True, PBT + "valid-polygon generators + three exact validity predicates (vertex provenance, half-pixel Chebyshev corridor via closed-box separating-axis test, coverage at lattice sample locations)",
-  "10 000 (quick) / 1.6 M (thorough) valid polygons incl. holes and collapse-prone templates; every output vertex must be the centre of a pixel holding an input vertex, sampled points of every output edge must stay within half a pixel of the input boundary, and every sampled location farther than a pixel from the boundary must be covered iff the input covers it. Clause 2 and 3 are sampled (one-directional: a reported excess is real).",
-  KERNEL + "Open known finding F5 excluded by signature (invented edge, maxVisits >= 3).",
+  "10 000 (quick) / 1.6 M (thorough) valid polygons incl. holes and collapse-prone templates; every output vertex must be the centre of a pixel holding an input vertex, sampled points of every output edge must stay within half a pixel of the input boundary, and every sampled location farther than a pixel from the boundary must be covered iff the input covers it. Clause 2 and 3 are sampled (one-directional: a reported excess is real). Plus the exhaustive triangle slice of C01.",
+  KERNEL + "Open known findings F5 (invented edge, maxVisits >= 3) and F12 (hole attached to a cancelled zero-area island) are excluded by signature and reported as KNOWN-FINDING.",
   "DESIGN.md §5 C04")
 c("C18", True, PBT + "collapse-biased valid-polygon generators + reference model (routed boundary) with exact explained-edge, hole-containment and signed-area predicates",
-  "15 000 (quick) / 2.4 M (thorough) valid polygons biased to collapse; for every requested tile matrix whose routed boundary passes no centre more than twice: every output edge is a straight run of routed edges, holes lie in or on their shell, and the signed area equals the routed boundary's, exactly.",
+  "15 000 (quick) / 2.4 M (thorough) valid polygons biased to collapse; for every requested tile matrix whose routed boundary passes no centre more than twice: every output edge is a straight run of routed edges, holes lie in or on their shell, and the signed area equals the routed boundary's, exactly. Plus the exhaustive triangle slice of C01.",
   KERNEL, "DESIGN.md §5 C18")
 c("C05", True, PBT + "arbitrary (valid and invalid) polygon generators, both keep modes per case, structural invariant oracle",
   "30 000 (quick) / 4.8 M (thorough) arbitrary polygons (repetitive scribbles, words over pixel centres, tiny rings, empty rings) on grids incl. WebMercator/UPS/ETRS89 (magnitudes above 2^53, y,x axis order); every returned ring is checked for orientation (exact area sign), closure, repetition, size, and the keep/no-keep prefix relation.",
